@@ -7,6 +7,10 @@ def reg_oracle(scr, out):
     for ln, (l, o) in enumerate(zip(scr, out)):
         parts = o.split('|'); f = l.split(' ')
         if f[0] == 'SETUP': ids = {}; nusk = 0
+        if len(parts) >= 3 and parts[2].startswith('USK') and parts[0] == 'ERR' and f[0] in ('RF', 'RFBAD'):
+            # a refused refresh: the issued key still carries its identifier (as many markers and points as the master key has tracers)
+            _, mf, _ = dumps.fields(parts[1]); _, uf, _ = dumps.fields(parts[2])
+            if uf.get('m') != mf.get('t') or uf.get('p') != mf.get('t'): hits.append((ln, f'after a refused refresh the issued user key has {uf.get("m")} markers / {uf.get("p")} tracing points, the master key has {mf.get("t")} tracers'))
         if len(parts) >= 3 and parts[2].startswith('USK') and parts[0] == 'OK':
             _, mf, _ = dumps.fields(parts[1]); _, uf, _ = dumps.fields(parts[2])
             users = set(mf.get('u', '').split(',')) - {''}
@@ -21,11 +25,12 @@ def reg_oracle(scr, out):
     return hits
 
 def run(ctx):
-    if not hc.ensure_builds(ctx, ('default', 'alt')): hc.finish(ctx, 'builds failed')
+    if not hc.ensure_builds(ctx, ('default', 'alt'), optional=('alt',)): hc.finish(ctx, 'builds failed')
     n = 400 if ctx.quick() else 8000
     H, impl, model, dis, hits = hc.run_profile(ctx, profiles.C17, n, extra_oracle=reg_oracle, claims=lambda op, a, b: op in ('KG', 'RF', 'RFBAD'))
     import objcheck
     objcheck.tracing(ctx, profiles.C17, 40 if ctx.quick() else 400)
+    if 'alt' not in ctx.unbuilt: objcheck.tracing(ctx, profiles.C17, 15 if ctx.quick() else 150, 'alt')     # p-256 / ML-KEM-768 build, arithmetic by the p256 crate
     hc.vm_crosscheck(ctx, H, model)
     hc.finish(ctx, f'{n} random histories of key generations, refreshes and master-key round trips: identifier recorded, distinct, marker/point counts; on a subset the serialized keys are parsed and the '
               'tracing relation sum a_i t_i = s, P_i = t_i G, equality of tracing points in user and public keys, and pk = sk (s G) are checked with real scalar arithmetic')
